@@ -24,6 +24,18 @@ fn irtest(args: &[String]) {
     let mut model = model::Model::spawn();
     let src = schema_src_sexp(&schema_text, is_json).unwrap();
     let m = run_model(&mut model, &src, &schema_text, &query_text, &opts);
+    if let RealOutcome::Ok(t) = &real {
+        match vcore::extract::default_bodies(t) {
+            Ok(ms) => {
+                for (m, fns) in ms {
+                    for (f, b) in fns {
+                        println!("default body {}::{} = {}", m, f, b.render());
+                    }
+                }
+            }
+            Err(e) => println!("default bodies: {}", e),
+        }
+    }
     match compare_outcome(&real, &m) {
         Ok(()) => println!("AGREE ({})", real.kind()),
         Err(d) => {
